@@ -295,7 +295,7 @@ def gen_random_solve(tier, rng):
     n = 20000 if tier == "quick" else 120000
     return [with_entry(rng, *rand_prog(rng)) for _ in range(n)]
 
-N_MALFORMED_FIXED = 33
+N_MALFORMED_FIXED = 48
 def gen_malformed_lower(tier, rng):
     n = 6000 if tier == "quick" else 40000
     fixed = ["0..3|0..3 ; lin eq 1 x0,x1 2", "0..3|0..3 ; blin le 1,2,3 x0,x1 2", "0..3 ; call min -", "0..3 ; call max -",
@@ -304,6 +304,13 @@ def gen_malformed_lower(tier, rng):
              "0..3|0..3 ; call add c:1 c:2", "0..3|0..3 ; call mul c:1 c:2", "0..3|0..3 ; call element - x0 x1", "0..3 ; new eq(x0,7) ; call abs x0",
              "0..3 ; new eq(x0,7) ; call min x0", "0..3|b ; new eq(x0,7) ; call sum x0,x1",
              "0..3 ; call amin -", "0..3 ; call amax -", "0..3 ; new eq(x0,7) ; call amin x0", "0..3|b ; new eq(x0,7) ; call sumiter x0,x1",
+             # empty operand domains read at posting time (repaired: empty result variable, InvalidDomain from the solving call)
+             "3..1|0..3 ; call add x0 x1", "0..3|3..1 ; call sub x0 x1", "3..1 ; call mul x0 c:2", "0..3 ; new eq(x0,7) ; call mod x0 c:2",
+             "3..1|0..3 ; call max x1,x0", "3..1 ; call amax x0", "0..3|3..1 ; call sum x0,x1", "0..3 ; new eq(x0,7) ; call felement x0,x0 x0",
+             "0..3|0..3 ; new eq(x0,7) ; call cumulative x0,x1 2,2 2,2 3", "3..1|0..3 ; api add x0 x1", "0..3|0..3 ; new eq(x0,7) ; api mul x0 x1",
+             "0..3|0..3 ; new eq(x1,-1) ; call add x0 x1 ; call abs x2 ; call min x0,x3",
+             # Model::gcc length mismatch (repaired: recorded validation error)
+             "0..3|0..3 ; call gcc x0,x1 1 x0,x1", "0..3|0..3 ; call gcc x0,x1 - x0", "0..3|0..3 ; call gcc x0,x1 1,2,3 -",
              "0..3|0..3|0..1 ; call table2d x0,x1/x1,x0 1:2:3", "0..3|0..3|0..1 ; call table2d x0,x1/x2 1:2", "0..3|0..3 ; call table3d x0,x1//x1 1:2/0",
              "0..3|0..3|-1..2|-1..2 ; call element2d - x2 x3 x0", "0..3|0..3|-1..2|-1..2 ; call element2d e/x0,x1 x2 x3 x0",
              "0..3|0..3|-1..2|-1..2 ; call element2d x0,x1/x1 x2 x3 x0", "0..3|0..3|-3..-1|0..1 ; call element2d x0,x1/x1,x0 x2 x3 x0",
